@@ -328,6 +328,15 @@ func enumRaw(x *core.Ctx, maxBody int, fn func(c *rawCase) bool) {
 				}
 			}
 		}
+		// F6: one more property inserted next to every property (and into an
+		// empty property section): every defined identifier with a zero and a
+		// non-zero value — duplicates, repeated strings of other lengths,
+		// identifiers the packet does not allow; lengths kept consistent.
+		for _, m := range propertyInsertions(v, hdr) {
+			if !call("F6.property-inserted", m, -1) {
+				return
+			}
+		}
 		// F5: cross-type decoding
 		for t := 0; t < 16; t++ {
 			if byte(t) == v.B[0]>>4 {
@@ -428,3 +437,72 @@ func normPanic(s string) string {
 }
 
 var _ = bind.Zero
+
+var definedIDs = func() []byte {
+	var out []byte
+	for i := 0; i < 256; i++ {
+		if _, _, ok := spec.PropInfo(byte(i)); ok {
+			out = append(out, byte(i))
+		}
+	}
+	return out
+}()
+
+// encodeProp returns the wire form of one property.
+func encodeProp(pr spec.Prop) []byte {
+	kind, _, _ := spec.PropInfo(pr.ID)
+	out := []byte{pr.ID}
+	str := func(b []byte) { out = append(out, byte(len(b)>>8), byte(len(b))); out = append(out, b...) }
+	switch kind {
+	case spec.KindByte:
+		out = append(out, byte(pr.N))
+	case spec.KindU16:
+		out = append(out, byte(pr.N>>8), byte(pr.N))
+	case spec.KindU32:
+		out = append(out, byte(pr.N>>24), byte(pr.N>>16), byte(pr.N>>8), byte(pr.N))
+	case spec.KindVarint:
+		out = spec.AppendVarint(out, pr.N)
+	case spec.KindString, spec.KindBinary:
+		str(pr.B)
+	case spec.KindPair:
+		str(pr.B)
+		str(pr.V)
+	}
+	return out
+}
+
+// propertyInsertions returns frames with one extra property inserted at
+// every property boundary of every property section of v.
+func propertyInsertions(v VFrame, hdr int) [][]byte {
+	var out [][]byte
+	for _, pl := range v.Fields {
+		if pl.Kind != spec.FPropLen {
+			continue
+		}
+		old, _, ok := spec.ReadVarint(v.B[pl.Start:pl.End])
+		if !ok {
+			continue
+		}
+		// boundaries: start of the section and the end of each property in it
+		bounds := []int{pl.End}
+		for _, f := range v.Fields {
+			if f.Kind == spec.FProperty && f.InWill == pl.InWill && f.Start >= pl.End && f.End <= pl.End+int(old) {
+				bounds = append(bounds, f.End)
+			}
+		}
+		for _, at := range bounds {
+			for _, id := range definedIDs {
+				for _, pr := range []spec.Prop{zeroProp(id), primaryProp(id)} {
+					ins := encodeProp(pr)
+					body := append([]byte{}, v.B[hdr:pl.Start]...)
+					body = spec.AppendVarint(body, old+uint32(len(ins)))
+					body = append(body, v.B[pl.End:at]...)
+					body = append(body, ins...)
+					body = append(body, v.B[at:]...)
+					out = append(out, reframe(v.B[0], body))
+				}
+			}
+		}
+	}
+	return out
+}
